@@ -2,6 +2,7 @@ package props
 
 import (
 	"fmt"
+	"strings"
 	"time"
 
 	"verifharness/ref"
@@ -23,10 +24,12 @@ func init() {
 		Level: "exploration",
 		Rule: "A (pure, exhaustive over a grid): delegations and invocations built with every combination of absent/present nbf/exp from {now-10y, now-1d, now-1h, now+1h, now+1d, now+10y, 2^53-1 s (exp/nbf via absolute option)} incl. exp<nbf, as constructed and after seal/unseal, plus tokens decoded from hand-signed payloads whose exp/nbf take every delicate value (0, +-1, +-(2^53-1), the Go zero time, 2^31, year 10000, null/absent; the reported window must be the signed one); each token probed with IsValidAt at b+{-100y,-1h,-1s,-(1s-1ns),-1us,-1ns,+1ns,+1us,+(1s-1ns),+1s,+1h,+100y} around each reported bound b; instants strictly inside the reported window must be valid, strictly outside invalid (instants on a bound are recorded, not judged). " +
 			"B (chains): conforming chains with one or more expired / not-yet-active tokens at every position (invocation, leaf, middle, root), offsets from {3s, 45s, 6min, 31min, 1h, 1d, 10y} on either side (a tolerance for clock skew, a comparison in coarser units or against a stale reading would show at the small ones); allowed => the invocation and every link are valid. " +
+			"C (bounds passing while the process runs): chains and single tokens built with an expiration or a not-before 2.5 s ahead (leaf, middle, root, invocation; ExecutionAllowed and IsValidNow), checked at once, then - after a silence without any library call until every bound lies more than a second behind - checked again, a different kind of call coming first after the silence in every cycle and shard, and once more afterwards; a verdict remembered from before, a clock that is read lazily, cached or refreshed in the background would show here. " +
 			"non-trivial = token with >=1 bound (A) / chain with >=1 out-of-window token (B); distinct = (type, bounds, codec state, probe) / (n, offsets vector).",
 		Assumptions: []string{
 			"B: the call is bracketed by two clock readings; a token counts as expired only if its reported expiration lies more than a second BEFORE the bracket and as not yet active only if its not-before lies more than a second AFTER it (so whatever instant inside the bracket the library read, the verdict is the same); a scenario with a bound inside the bracket is discarded. Offsets down to 3 s are used this way without the clock ever deciding",
 			"the window is the one the token itself reports through NotBefore()/Expiration()",
+			"C: the sleep between the two phases only lets time pass; every verdict is decided by the same bracket rule as in B (a call whose bracket comes within a second of the moving bound is discarded), so a slow or overloaded machine cannot produce an alarm",
 		},
 		Shards:      shards(8, 16),
 		Run:         runC04,
@@ -34,7 +37,7 @@ func init() {
 		MinDistinct: floor(3000, 15000),
 		RequiredCells: func(string) []string {
 			cells := []string{"A/zones", "B/long-chain", "B/far-bound", "B/near-bound", "A/inside", "A/before-nbf", "A/after-exp", "A/on-bound", "A/decoded", "A/constructed", "A/delegation", "A/invocation", "A/exp<nbf", "A/far-future-bound", "A/decoded-from-signed-payload",
-				"B/all-valid", "B/expired@inv"}
+				"B/all-valid", "B/expired@inv", "C/before/inside", "C/before/outside", "C/after/inside", "C/after/outside", "C/later/outside", "C/after/chain/exp@leaf/first-call-after-silence", "C/after/IsValidNow/dlg-exp/first-call-after-silence", "C/after/chain/exp@inv/first-call-after-silence"}
 			for _, pos := range []string{"first", "middle", "last", "only"} {
 				cells = append(cells, "B/expired@"+pos, "B/notyet@"+pos)
 			}
@@ -461,6 +464,7 @@ func runC04(w *mon.W) {
 			w.Sample(d)
 		}
 	}
+	c04Transitions(w)
 }
 
 func classTime(why string, n int) string {
@@ -486,4 +490,139 @@ func ptrS(v *int64) string {
 		return "-"
 	}
 	return fmt.Sprint(*v)
+}
+
+// c04Transitions (part C): bounds that pass WHILE THE PROCESS IS RUNNING. Tokens are built with
+// an expiration (or a not-before) a few seconds ahead and checked at once; then the process does
+// nothing at all until every bound has passed - no check, no library call - and checks again,
+// a different kind of call coming first after the silence in every cycle. The sleep only lets
+// time pass: each verdict is decided as in part B, by the bracket of clock readings around the
+// call against the bounds the tokens report, with a second of margin (a bound inside the
+// margin decides nothing).
+func c04Transitions(w *mon.W) {
+	r := w.Rng
+	kinds := []string{"chain/exp@leaf", "chain/exp@root", "chain/exp@inv", "IsValidNow/dlg-exp", "IsValidNow/inv-exp", "chain/nbf@leaf", "IsValidNow/dlg-nbf", "chain/exp@middle"}
+	type item struct {
+		kind     string
+		s        *chain.Scenario
+		b        *chain.Built
+		nbf, exp *time.Time  // the one bound that moves
+		call     func() bool // true = allowed / valid
+		desc     string
+	}
+	cycles := w.Pick(2, 5)
+	const lead = 2500 * time.Millisecond
+	for cy := 0; cy < cycles; cy++ {
+		var items []item
+		var latest time.Time
+		for _, kind := range kinds {
+			n := 1 + r.IntN(3)
+			if kind == "chain/exp@middle" {
+				n = 3
+			}
+			s := chain.Conformant(r, n, 5)
+			where := -1
+			switch kind {
+			case "chain/exp@leaf", "IsValidNow/dlg-exp":
+				where = 0
+				s.Links[0].Exp = chain.D(lead)
+			case "chain/exp@root":
+				where = n - 1
+				s.Links[n-1].Exp = chain.D(lead)
+			case "chain/exp@middle":
+				where = 1
+				s.Links[1].Exp = chain.D(lead)
+			case "chain/exp@inv", "IsValidNow/inv-exp":
+				s.InvExp = chain.D(lead)
+			case "chain/nbf@leaf", "IsValidNow/dlg-nbf":
+				where = 0
+				s.Links[0].Nbf = chain.D(lead)
+			}
+			b, err := s.Build(r)
+			if err != nil {
+				w.Inconclusive("C04 C: scenario could not be realised: " + err.Error())
+				continue
+			}
+			it := item{kind: kind, s: s, b: b, desc: fmt.Sprintf("%s, %d links, bound %s after construction", kind, n, lead)}
+			switch {
+			case strings.Contains(kind, "nbf"):
+				it.nbf = b.Dlgs[where].NotBefore()
+			case where >= 0:
+				it.exp = b.Dlgs[where].Expiration()
+			default:
+				it.exp = b.Inv.Expiration()
+			}
+			switch kind {
+			case "IsValidNow/dlg-exp", "IsValidNow/dlg-nbf":
+				d := b.Dlgs[0]
+				it.call = d.IsValidNow
+			case "IsValidNow/inv-exp":
+				it.call = b.Inv.IsValidNow
+			default:
+				inv, ld := b.Inv, b.Loader
+				it.call = func() bool { return inv.ExecutionAllowed(ld) == nil }
+			}
+			for _, t := range []*time.Time{it.nbf, it.exp} {
+				if t != nil && t.After(latest) {
+					latest = *t
+				}
+			}
+			items = append(items, it)
+		}
+		probe := func(phase string, pos int, it item) {
+			tb := time.Now()
+			got := it.call()
+			ta := time.Now()
+			w.Eval(1)
+			// classification of the bracket against the moving bound
+			state := "ambiguous"
+			switch {
+			case it.exp != nil && it.exp.Before(tb.Add(-time.Second)):
+				state = "outside"
+			case it.exp != nil && it.exp.After(ta.Add(time.Second)):
+				state = "inside"
+			case it.nbf != nil && it.nbf.After(ta.Add(time.Second)):
+				state = "outside"
+			case it.nbf != nil && it.nbf.Before(tb.Add(-time.Second)):
+				state = "inside"
+			}
+			if state == "ambiguous" {
+				w.Count("C/bound-inside-the-call-bracket(discarded)", 1)
+				return
+			}
+			first := ""
+			if phase == "after" && pos == 0 {
+				first = "/first-call-after-silence"
+			}
+			w.Cover("C/" + phase + "/" + state)
+			w.Cover("C/" + phase + "/" + it.kind + first)
+			w.Distinct("C", cy, it.kind, phase, pos)
+			d := map[string]any{"case": it.desc, "phase": phase, "position_after_silence": pos, "bound_nbf": fmtT(it.nbf), "bound_exp": fmtT(it.exp), "clock_before_call": tb.UTC().Format(time.RFC3339Nano), "clock_after_call": ta.UTC().Format(time.RFC3339Nano), "chain": it.s.Describe()}
+			if state == "outside" && got {
+				w.Violate("C/valid-outside-window/"+it.kind+"/"+phase+first, fmt.Sprintf("%s: reported valid / allowed although the bound (%s%s) lies more than a second outside the call (%s)", it.kind, fmtT(it.nbf), fmtT(it.exp), phase), d)
+			}
+			if state == "inside" && !got {
+				if strings.HasPrefix(it.kind, "IsValidNow") {
+					w.Violate("C/invalid-inside-window/"+it.kind+"/"+phase+first, fmt.Sprintf("%s: reported invalid although the call lies more than a second inside the window (%s)", it.kind, phase), d)
+				} else {
+					w.Count("conforming_but_denied(judged_by_C05)", 1)
+				}
+			}
+		}
+		for pos, it := range items {
+			probe("before", pos, it)
+		}
+		// silence until every moving bound lies more than a second behind
+		if wait := time.Until(latest.Add(1300 * time.Millisecond)); wait > 0 {
+			time.Sleep(wait)
+		}
+		rot := (cy + w.Shard) % max(1, len(items))
+		for pos := range items {
+			probe("after", pos, items[(pos+rot)%len(items)])
+		}
+		// and the same calls once more, now that the clock-reading code is warm again
+		for pos := range items {
+			probe("later", pos+len(items), items[(pos+rot)%len(items)])
+		}
+	}
 }
